@@ -107,6 +107,7 @@ OgreArc<DataType, OgreAllocatorType> {
     #[inline(always)]
     pub unsafe fn increment_references(&self, count: u32) -> &Self {
         let inner = unsafe { self.inner.as_ref() };
+        #[cfg(feature = "verif")] crate::verif::yield_point();
         inner.references_count.fetch_add(count, Relaxed);
         self
     }
@@ -206,6 +207,7 @@ OgreArc<DataType, OgreAllocatorType> {
     #[inline(always)]
     fn clone(&self) -> Self {
         let inner = unsafe { self.inner.as_ref() };
+        #[cfg(feature = "verif")] crate::verif::yield_point();
         inner.references_count.fetch_add(1, Relaxed);
         Self {
             inner: self.inner,
@@ -257,12 +259,15 @@ OgreArc<DataType, OgreAllocatorType> {
     #[inline(always)]
     fn drop(&mut self) {
         let inner = unsafe { self.inner.as_mut() };
+        #[cfg(feature = "verif")] crate::verif::yield_point();
         let references = inner.references_count.fetch_sub(1, Release);
         if references != 1 {
             return;
         }
         atomic::fence(Acquire);
+        #[cfg(feature = "verif")] crate::verif::yield_point();
         inner.allocator.dealloc_id(inner.data_id);
+        #[cfg(feature = "verif")] crate::verif::yield_point();
         let boxed = unsafe { Box::from_raw(inner) };
         drop(boxed);
     }
